@@ -4,6 +4,7 @@ CONSTANTS
   MaxCalls = 2
   MaxFails = 1
   MaxActs = 1
+  MaxX = 0
 VIEW MCView
 INVARIANT InvRTCNoNesting
 INVARIANT InvQuiescent
